@@ -328,7 +328,71 @@ fn generic_walk(cx: &mut Cx, r: Ref, path: String, parent: Option<(usize, usize)
     here.map(|h| h.1)
 }
 
+/// Spans from a stream that fails once (a transient error of a kind the caller retries, at a
+/// datum boundary) and is read on: where the run yields the same values as the fault-free run,
+/// it reports the same spans (positions count bytes of the input, not calls of the reader).
+fn check_flaky_stream(acc: &mut Acc, rank: u64, text: &[u8], po: &PO) {
+    use crate::engine::choice::FaultReader;
+    let o = po.to_lexpr();
+    let run = |fail_at: Option<usize>| -> Option<Vec<(String, Vec<(String, Sp)>)>> {
+        let reader = FaultReader { data: text, pos: 0, chunk: 1, fail_at: fail_at.unwrap_or(usize::MAX), sticky: false, fired: 0, payload: 3 };
+        let r = guard(std::panic::AssertUnwindSafe(move || {
+            let mut p = lexpr::parse::Parser::from_reader_custom(reader, o);
+            let mut out = Vec::new();
+            let mut errors = 0;
+            for _ in 0..(text.len() + 4) {
+                match p.next_datum() {
+                    Ok(Some(d)) => {
+                        let mut flat = Vec::new();
+                        flatten(d.as_ref(), "root".into(), &mut flat);
+                        out.push((RV::from_value(d.value()).to_string(), flat));
+                    }
+                    Ok(None) => return Some(out),
+                    Err(e) => {
+                        // retry after the I/O error; anything else ends the comparison
+                        if e.classify() != lexpr::parse::error::Category::Io {
+                            return None;
+                        }
+                        errors += 1;
+                        if errors > 2 {
+                            return None;
+                        }
+                    }
+                }
+            }
+            None
+        }));
+        r.ok().flatten()
+    };
+    let base = match run(None) {
+        Some(b) if !b.is_empty() => b,
+        _ => return,
+    };
+    acc.nontrivial += 1;
+    for k in 0..=text.len() {
+        acc.evals += 1;
+        if let Some(got) = run(Some(k)) {
+            // only runs in which the fault did not cost a token
+            let same_values = got.len() == base.len() && got.iter().zip(base.iter()).all(|(a, b)| a.0 == b.0);
+            if !same_values {
+                continue;
+            }
+            acc.outcome(&(got.len(), k.min(3)));
+            if got != base {
+                let diff = got.iter().zip(base.iter()).flat_map(|(a, b)| a.1.iter().zip(b.1.iter())).find(|(x, y)| x != y).map(|(x, y)| format!("{}: {:?} after the transient error, {:?} without it", x.0, x.1, y.1)).unwrap_or_default();
+                let (h, pi) = (hex(text), po.index());
+                acc.violation("flaky-stream", "spans-shift-after-transient-error", "spans-shift-after-transient-error", rank, format!("text={:?} opts=[{}] transient read error before byte {}", show_bytes(text), po.describe(), k), diff, || json!({"flaky_hex": h, "po": pi}));
+                return;
+            }
+        }
+    }
+}
+
 pub fn replay(sub: &str, case: &J, acc: &mut Acc) {
+    if let Some(h) = case["flaky_hex"].as_str() {
+        check_flaky_stream(acc, 0, &unhex(h), &PO::from_index(case["po"].as_u64().unwrap_or(0)));
+        return;
+    }
     let input = unhex(case["input_hex"].as_str().unwrap_or(""));
     let po = PO::from_index(case["po"].as_u64().unwrap_or(0));
     // without the token model only the generic clauses and the cross-source equality can be replayed
@@ -459,6 +523,17 @@ pub fn run(ctx: &Ctx) -> Report {
                 let gaps: Vec<Vec<u8>> = (0..ng).map(|_| t.to_vec()).collect();
                 check_layout(acc, &name, rank, &lay, &gaps, &po, &expected);
             }
+        });
+        rep.absorb(sub, accs);
+    }
+    if ctx.want("flaky-stream") {
+        let texts: Vec<&str> = vec!["(a b) c\n(d)", "a b\n c", " (a\n b)\n'x ; c\n(y . z)", "#(1 2)\n\"s\" #\\a", "λ (λ)\n[a]", "a"];
+        let two = [PO::default_(), PO::elisp()];
+        let sub = Sub::new("flaky-stream", "multi-datum texts read with next_datum from a stream that fails once with a transient error before byte k (every k) and is read on by the caller: whenever the run yields the same values as the fault-free run it reports the same spans", &format!("{} texts x 2 option sets x every offset", texts.len()));
+        let accs = par_ranks(texts.len() as u64 * 2, |rank, acc| {
+            let t = texts[(rank / 2) as usize].as_bytes();
+            acc.sample(rank, || format!("{:?}", show_bytes(t)));
+            check_flaky_stream(acc, rank, t, &two[(rank % 2) as usize]);
         });
         rep.absorb(sub, accs);
     }
